@@ -52,23 +52,24 @@ func matchFinding(fs []Finding, v kernel.Violation) *Finding {
 
 // Agg aggregates the results of a check.
 type Agg struct {
-	Runs       int
-	Ops        int
-	Steps      int
-	SimWallUS  int64
-	Faults     map[string]int
-	Probes     map[string]int
-	Digests    map[string]bool
-	Sigs       map[string]bool
-	NonTrivial map[string]bool // distinct digests of runs in which >= 1 fault fired
-	Violating  []*kernel.Result
-	Harness    []string
-	OtherProps map[string]int
-	FreeRuns   int
-	EnumCases  int
-	EnumTotal  int
-	ByWorld    map[string]int
-	Variants   map[string]int
+	Runs                   int
+	Ops                    int
+	Steps                  int
+	SimWallUS              int64
+	Faults                 map[string]int
+	Probes                 map[string]int
+	Digests                map[string]bool
+	Sigs                   map[string]bool
+	NonTrivial             map[string]bool // distinct digests of runs in which >= 1 fault fired
+	Violating              []*kernel.Result
+	Harness                []string
+	OtherProps             map[string]int
+	FreeRuns               int
+	EnumCases              int
+	EnumTotal              int
+	EnumDistinctNontrivial int
+	ByWorld                map[string]int
+	Variants               map[string]int
 }
 
 func newAgg() *Agg {
@@ -104,6 +105,9 @@ func (a *Agg) add(prop string, r *kernel.Result) {
 		a.EnumCases += r.Ops
 		if t, ok := r.Cfg["enum_total_cases"].(float64); ok {
 			a.EnumTotal = int(t)
+		}
+		if t, ok := r.Cfg["enum_distinct_nontrivial_cases"].(float64); ok {
+			a.EnumDistinctNontrivial += int(t)
 		}
 	}
 	mine := false
